@@ -148,6 +148,29 @@ def run_case(case):
                     v.check(prob is None, "narrowed accessors (one attribute / antenna / ray) return the same data as the full ones", event=k, accessor=prob[0] if prob else None,
                             **dict(cfg, **(prob[1] if prob else {})))
                 v.check(len(got) == n, "iteration yields every event", iterated=len(got), stored=n, **cfg)
+                # reader-level access by (event, antenna, waveform number): the event's own waveform, or nothing when that event has
+                # no such waveform - never a row of another event (numbers up to two past the event's count are asked for)
+                for k, o in enumerate(got):
+                    wv = o.get("waves")
+                    if isinstance(wv, str) or wv is None:
+                        continue
+                    own = wv
+                    cnt = len(wv)
+                    for a_ in range(case["nant"]):
+                        for w_ in range(cnt + 2):
+                            try:
+                                r_ = np.asarray(f.get_waveforms(event_id=k, antenna_id=a_, waveform_type=w_), dtype=object)
+                            except ValueError:
+                                r_ = None
+                            if w_ < cnt:
+                                own_ = own[w_][a_]          # (times, values) of that waveform
+                                ok_ = (r_ is not None and len(r_) == len(own_)
+                                       and all(np.array_equal(np.asarray(r_[j_], float), np.asarray(own_[j_], float)) for j_ in range(len(own_))))
+                            else:
+                                ok_ = r_ is None or r_.size == 0
+                            if not v.check(ok_, "reader-level waveform access by (event, antenna, number) returns that event's own waveform or nothing", event=k, antenna=a_, number=w_,
+                                           waveforms_of_event=cnt, returned=None if r_ is None else list(r_.shape), **cfg):
+                                break
                 for k, (m, o) in enumerate(zip(model, got)):
                     prob = h5.cmp_model(m, o, case["nant"], where="event %d of %d" % (k, n))
                     if prob:
